@@ -173,7 +173,7 @@ theorem stateFn_raw {cert : RCert} (hchk : checkRaw env.tbl cert = true) (hs : S
     exact consumePhase_raw hchk hs hs3 hw (enterPhase env inp sd m).1 (by rw [i3]; exact hst) i1 i4
       (by rw [i2]; exact ta) (by rw [i3]; exact hcov)
 
-/-- token-part specification of the parsing loop -/
+/-- raw-range specification of the parsing loop -/
 def LoopRaw (t : Table) (cert : RCert) (r : M κ × Signal) : Prop :=
   match r.2 with
   | .err e => ErrNot T3 e
